@@ -15,6 +15,7 @@ import (
 	"reflect"
 	"regexp"
 	"sort"
+	"strconv"
 	"strings"
 	"time"
 
@@ -375,7 +376,43 @@ func lost(s *gs.Schema, defs map[string]*gs.Schema, in, out interface{}, path st
 }
 
 // ---- fixed special definitions (allOf, discriminator with x-class, additionalProperties next to properties, lone property-count bounds) ----
+func formatNames() []string {
+	var fs []string
+	for f := range gs.FormatSample {
+		fs = append(fs, f)
+	}
+	sort.Strings(fs)
+	return fs
+}
+
+// fmtDefName: FormatA, FormatB, ... in the order of formatNames (names that no initialism rule rewrites)
+func fmtDefName(f string) string {
+	for i, x := range formatNames() {
+		if x == f {
+			return "Format" + string(rune('A'+i))
+		}
+	}
+	return "FormatX"
+}
+
+// formatBag: one required property per format, each a $ref to the named type of that format
+func formatBag() *gs.Schema {
+	s := &gs.Schema{Kind: gs.KObject}
+	for _, f := range formatNames() {
+		s.Props = append(s.Props, gs.Prop{Name: strings.ToLower(fmtDefName(f)) + "Val", Schema: &gs.Schema{Kind: gs.KRef, Ref: fmtDefName(f)}, Required: true})
+	}
+	return s
+}
+
 func specials() map[string]*gs.Schema {
+	m := specials0()
+	for _, f := range formatNames() {
+		m[fmtDefName(f)] = &gs.Schema{Kind: gs.KString, Format: f}
+	}
+	return m
+}
+
+func specials0() map[string]*gs.Schema {
 	str := func() *gs.Schema { return &gs.Schema{Kind: gs.KString} }
 	return map[string]*gs.Schema{
 		"Base": {Kind: gs.KObject, Props: []gs.Prop{{Name: "createdBy", Schema: str(), Required: true}}},
@@ -396,6 +433,10 @@ func specials() map[string]*gs.Schema {
 		"Dog":    {Kind: gs.KObject, XClass: "com.acme.Dog", AllOf: []*gs.Schema{{Kind: gs.KRef, Ref: "Pet"}, {Kind: gs.KObject, Props: []gs.Prop{{Name: "bark", Schema: str()}}}}},
 		"Cat":    {Kind: gs.KObject, AllOf: []*gs.Schema{{Kind: gs.KRef, Ref: "Pet"}, {Kind: gs.KObject, Props: []gs.Prop{{Name: "lives", Schema: &gs.Schema{Kind: gs.KInteger}}}}}},
 		"Kennel": {Kind: gs.KObject, Props: []gs.Prop{{Name: "resident", Schema: &gs.Schema{Kind: gs.KRef, Ref: "Pet"}}, {Name: "all", Schema: &gs.Schema{Kind: gs.KArray, Items: &gs.Schema{Kind: gs.KRef, Ref: "Pet"}}}}},
+		// named types of every string format (aliases of formatted types), and an object, an array and a map holding them
+		"FormatBag": formatBag(),
+		"Durations": {Kind: gs.KArray, Items: &gs.Schema{Kind: gs.KString, Format: "duration"}},
+		"Secrets":   {Kind: gs.KMap, Addl: &gs.Schema{Kind: gs.KString, Format: "byte"}},
 		"Unsigned": {Kind: gs.KObject, Props: []gs.Prop{
 			{Name: "n", Schema: &gs.Schema{Kind: gs.KInteger, Format: "uint32", Max: gs.I(10), XMax: true}},
 			{Name: "m", Schema: &gs.Schema{Kind: gs.KInteger, Format: "uint32", Min: gs.I(1), Max: gs.I(10), XMin: true}},
@@ -585,6 +626,8 @@ func main() {
 				}
 				if cls == "type" && strings.Contains(refMsg, "must be of type date") && strings.Contains(string(c.Doc), `""`) {
 					cls = "empty-string-accepted-as-date-in-array"
+				} else if cls == "type" && genOK && rxEmptyFormatted.MatchString(refMsg) {
+					cls = "empty-string-accepted-as-formatted-string"
 				}
 				v02 = append(v02, violation{Key: "c02/" + kind + "[" + cls + "]",
 					What:   "generated model and reference validator disagree on " + c.Def,
@@ -606,8 +649,14 @@ func main() {
 				}
 				if dd := lost(defs[c.Def], defs, d, o, "", 0); dd != "" {
 					cls := lossClass(dd)
-					if strings.Contains(string(results[i].Out), "0001-01-01") && strings.HasSuffix(dd, "property added") {
-						cls = "absent-optional-date-rendered-as-zero-date"
+					if strings.HasSuffix(dd, ": property added") {
+						// which value was added: the zero of a struct-based format is a cause of its own
+						switch valueAt(o, strings.TrimSuffix(dd, ": property added")) {
+						case "0001-01-01", "0001-01-01T00:00:00.000Z":
+							cls = "absent-optional-date-rendered-as-zero-date"
+						case "000000000000000000000000", "00000000000000000000000000":
+							cls = "absent-optional-objectid-or-ulid-rendered-as-zero-id"
+						}
 					}
 					v05 = append(v05, violation{Key: "c05/roundtrip-loss[" + cls + "]", What: "decode-then-encode of a valid document is not lossless for " + c.Def + ": " + dd, Input: in,
 						Detail: map[string]interface{}{"in": c.Doc, "out": results[i].Out, "difference": dd}})
@@ -799,6 +848,27 @@ func countRule(s *gs.Schema, defs map[string]*gs.Schema, o interface{}, depth in
 		}
 	}
 	return true
+}
+
+var rxEmptyFormatted = regexp.MustCompile(`must be of type [a-z0-9]+: ""$`)
+
+// valueAt: the value at a /-separated path of property names and array indices
+func valueAt(v interface{}, path string) interface{} {
+	for _, p := range strings.Split(strings.Trim(path, "/"), "/") {
+		switch x := v.(type) {
+		case map[string]interface{}:
+			v = x[p]
+		case []interface{}:
+			i, err := strconv.Atoi(p)
+			if err != nil || i < 0 || i >= len(x) {
+				return nil
+			}
+			v = x[i]
+		default:
+			return nil
+		}
+	}
+	return v
 }
 
 func lossClass(d string) string {
